@@ -13,7 +13,70 @@ import (
 // genConcurrent: one incarnation; a `par` op with ingester, flusher/rotator and searcher clients running as
 // concurrent tasks under the seeded scheduler while the real idle / max-wait flush loops run on the fake
 // clock; afterwards quiescence (clock advance), final flush, and a match-all per index.
+// genHandover: events are flushed (completed) into an open segment; then a forced rotation runs concurrently
+// with back-to-back searches under heavy pre-emption, so that searches take their unrotated / rotated
+// snapshots inside the few statements of the unrotated -> rotated hand-over.
+func genHandover(r *rand.Rand) *plan.Plan {
+	k := plan.Knobs{Sched: true, Procs: []int{1, 2, 4}[r.IntN(3)], PreemptPermille: []int{0, 20, 100}[r.IntN(3)]}
+	// site delays: a per-run subset of lock / channel / fs sites holds its task back long enough for the
+	// other clients to run through whole operations (the classic way to open a hand-over window)
+	k.DelayPermille = []int{10, 30, 60}[r.IntN(3)]
+	k.DelayLen = []int{100, 400, 1500}[r.IntN(3)]
+	if r.IntN(2) == 0 {
+		k.PQS = &boolF
+	}
+	p := &plan.Plan{Knobs: k, Params: map[string]any{}}
+	inc := plan.Incarnation{Boot: "full", SchedSeed: r.Uint64() | 1}
+	nIdx := 1 + r.IntN(2)
+	total := map[string]int{}
+	var names []string
+	gens := map[string]*EvGen{}
+	for i := 0; i < nIdx; i++ {
+		n := fmt.Sprintf("hx%d", i)
+		names = append(names, n)
+		gens[n] = NewEvGen(r, []string{"flat", "sparse"}[r.IntN(2)], fmt.Sprintf("h%d-", i), 5)
+	}
+	batch := func(ix string, n int) plan.Op {
+		var evs []json.RawMessage
+		for j := 0; j < n; j++ {
+			evs = append(evs, gens[ix].Next(simEpochMs+int64(r.IntN(600_000))).Raw)
+		}
+		total[ix] += n
+		return plan.Op{Kind: "ingest", Index: ix, Events: evs}
+	}
+	rounds := 1 + r.IntN(3)
+	for rd := 0; rd < rounds; rd++ {
+		for _, ix := range names {
+			inc.Ops = append(inc.Ops, batch(ix, 5+r.IntN(30)))
+		}
+		inc.Ops = append(inc.Ops, plan.Op{Kind: "flush"})
+		var clients [][]plan.Op
+		clients = append(clients, []plan.Op{{Kind: "rotate"}})
+		for c := 0; c < 2+r.IntN(3); c++ {
+			var ops []plan.Op
+			for q := 0; q < 2+r.IntN(3); q++ {
+				ops = append(ops, plan.Op{Kind: "query", Index: names[r.IntN(len(names))], Text: "*", Start: qStart, End: qEnd, Size: 2000, Args: map[string]any{"includeNulls": true}})
+			}
+			clients = append(clients, ops)
+		}
+		if r.IntN(2) == 0 {
+			ix := names[r.IntN(len(names))]
+			clients = append(clients, []plan.Op{batch(ix, 3+r.IntN(10))})
+		}
+		inc.Ops = append(inc.Ops, plan.Op{Kind: "par", Par: clients})
+	}
+	inc.Ops = append(inc.Ops, plan.Op{Kind: "advance", DurMs: 12_000}, plan.Op{Kind: "flush"})
+	for _, ix := range names {
+		inc.Ops = append(inc.Ops, matchAll(ix, total[ix]+100))
+	}
+	p.Incs = []plan.Incarnation{inc}
+	return p
+}
+
 func genConcurrent(r *rand.Rand, quick bool) *plan.Plan {
+	if r.IntN(2) == 0 {
+		return genHandover(r)
+	}
 	k := plan.Knobs{Sched: true}
 	k.Procs = []int{1, 2, 4, 8, 16}[r.IntN(5)]
 	k.PreemptPermille = []int{0, 5, 20, 50, 100, 300}[r.IntN(6)]
@@ -136,6 +199,7 @@ func concurrentOracle(prop string, res *RunResult) []Violation {
 		where string
 	}
 	var searches []search
+	var prevRet uint64
 	for oi := range res.Plan.Incs[0].Ops {
 		op := &res.Plan.Incs[0].Ops[oi]
 		if op.Kind != "par" {
@@ -143,8 +207,19 @@ func concurrentOracle(prop string, res *RunResult) []Violation {
 			if e == nil {
 				break
 			}
+			siv := interval{inv: 2*prevRet + 1, ret: 2 * e.Seq}
+			prevRet = e.Seq
 			switch op.Kind {
+			case "ingest":
+				mm := newLogModel()
+				mm.applyIngest(op, e)
+				for _, ev := range mm.ByIndex[op.Index] {
+					m.ByIndex[op.Index] = append(m.ByIndex[op.Index], ev)
+					m.ByVID[ev.VID] = ev
+					ingestIv[ev.VID] = siv
+				}
 			case "flush", "rotate":
+				flushes = append(flushes, siv)
 				m.markFlushed()
 			case "query":
 				if e.Err != "" {
@@ -166,6 +241,9 @@ func concurrentOracle(prop string, res *RunResult) []Violation {
 			}
 			continue
 		}
+		if pe := ir.Get(fmt.Sprint(oi)); pe != nil {
+			prevRet = pe.Seq
+		}
 		for c := range op.Par {
 			for i := range op.Par[c] {
 				o := &op.Par[c][i]
@@ -174,9 +252,9 @@ func concurrentOracle(prop string, res *RunResult) []Violation {
 				if inv == nil {
 					continue
 				}
-				iv := interval{inv: inv.Seq, ret: ^uint64(0)}
+				iv := interval{inv: 2 * inv.Seq, ret: ^uint64(0)}
 				if ret != nil {
-					iv.ret = ret.Seq
+					iv.ret = 2 * ret.Seq
 				}
 				switch o.Kind {
 				case "ingest":
@@ -335,7 +413,7 @@ func init() {
 					}
 				}
 				c.Probe("search_overlapped_flush_or_rotate", overlap)
-				sample := map[string]any{"fingerprint": fp, "knobs": res.Plan.Knobs, "clients": len(res.Plan.Incs[0].Ops[0].Par), "decisions": st.Decisions, "switches": st.Switches, "tasks": st.Tasks}
+				sample := map[string]any{"fingerprint": fp, "knobs": res.Plan.Knobs, "shape": opKinds(res.Plan), "decisions": st.Decisions, "switches": st.Switches, "tasks": st.Tasks}
 				return fp, res.Plan.Knobs.PreemptPermille > 0 || overlap > 0, sample
 			})
 		},
@@ -346,4 +424,17 @@ func init() {
 		},
 		Components: stdComponents,
 	})
+}
+
+func opKinds(p *plan.Plan) string {
+	var sb strings.Builder
+	for _, op := range p.Incs[0].Ops {
+		if op.Kind == "par" {
+			fmt.Fprintf(&sb, "par(%d clients)", len(op.Par))
+		} else {
+			sb.WriteString(op.Kind[:1])
+		}
+		sb.WriteString(" ")
+	}
+	return sb.String()
 }
